@@ -29,6 +29,7 @@ type C20Reg struct {
 	PanicOn []int   `json:"panic_on,omitempty"`
 	Cancels bool    `json:"cancels,omitempty"` // cancels the publish context on its first invocation
 	Yields  int     `json:"yields"`
+	Nested  bool    `json:"nested,omitempty"` // on its first invocation publishes an event of a second type from inside the handler (with its own context if context-aware)
 }
 
 type C20Pub struct {
@@ -65,6 +66,7 @@ func genC20(rt *rapid.T) core.Scenario {
 			r.PanicOn = rapid.SliceOfNDistinct(rapid.IntRange(0, 3), 1, 2, rapid.ID[int]).Draw(rt, "panicOn")
 		}
 		r.Cancels = rapid.IntRange(0, 4).Draw(rt, "cancels") == 4
+		r.Nested = rapid.IntRange(0, 4).Draw(rt, "nested") == 4
 		sc.Regs = append(sc.Regs, r)
 	}
 	np := rapid.IntRange(1, 2).Draw(rt, "nPublishers")
@@ -192,6 +194,8 @@ func (sc *C20Scenario) Execute(t *testing.T) *core.Outcome {
 	for _, l := range sc.Pubs {
 		nPubs += len(l)
 	}
+	nestedPubs := 0
+	typeB := (sc.Type + 1) % len(allTypes)
 	var rm metricdata.ResourceMetrics
 	body := func() {
 		var opts []eventbus.Option
@@ -233,6 +237,15 @@ func (sc *C20Scenario) Execute(t *testing.T) *core.Outcome {
 		calls := map[int]int{}
 		cancelFn := map[int]context.CancelFunc{}
 		w.OnInvoke = func(ti, fn, uid int, ctx context.Context, id int) {
+			if uid == 50 { // the single synchronous handler of the second type
+				iv := &c20Inv{Reg: -1, Ev: id}
+				iv.Enter = rec.Add("enter-nested", 0, id, "")
+				if tk := simrt.Current(); tk != nil {
+					iv.Task = tk.ID
+				}
+				invs = append(invs, iv)
+				return
+			}
 			ri := regOfFn[fn]
 			r := sc.Regs[ri]
 			iv := &c20Inv{Reg: ri, Ev: id, Async: r.Opts.Async}
@@ -248,6 +261,14 @@ func (sc *C20Scenario) Execute(t *testing.T) *core.Outcome {
 			calls[ri]++
 			for i := 0; i < r.Yields; i++ {
 				simrt.Yield(siteHandler)
+			}
+			if r.Nested && k == 0 {
+				nctx := ctx
+				if nctx == nil {
+					nctx = context.Background()
+				}
+				nestedPubs++
+				allTypes[typeB].Pub(w, nctx, 7000+id)
 			}
 			if r.Cancels && k == 0 {
 				if c := cancelFn[id]; c != nil {
@@ -268,6 +289,10 @@ func (sc *C20Scenario) Execute(t *testing.T) *core.Outcome {
 				out.HarnessErr = err.Error()
 				return
 			}
+		}
+		if err := w.SubscribeUID(typeB, 0, 50, SubOpts{}); err != nil {
+			out.HarnessErr = err.Error()
+			return
 		}
 		var tasks []*simrt.Task
 		for pi, l := range sc.Pubs {
@@ -330,6 +355,7 @@ func (sc *C20Scenario) Execute(t *testing.T) *core.Outcome {
 			out.Fault("append-" + o)
 		}
 	}
+	nPubs += nestedPubs
 	if !sc.OTel {
 		sc.checkTokens(out, or, invs, nPubs, appendOutcomes)
 	} else {
